@@ -57,7 +57,7 @@ PROPS = {
             "enum_every": {"quick": 100, "thorough": 25},
         }],
         "technique": "deterministic simulation with fault injection: seeded create/destroy/move histories of elements, lists, signals and connections against a membership model, injected allocation failures in connect and throwing callbacks, ring-closure invariant, invocation log, ASan as the stale-pointer monitor, minimised replay",
-        "level_text": "Seeded search over histories (up to 50 operations) of up to 3 intrusive lists with 8 heap-allocated elements and up to 3 signals (value/void, with and without unregister base) with 8 connections: creation, destruction in every order (lists and signals before their members), move construction and move assignment of elements, lists and signals from empty and non-empty sources, unlink, calls, throwing callbacks, allocation failure in connect, unregister callbacks that inspect empty() and destroy the signal (documented use). After every step forward/backward/const iteration and empty() are compared with the model (bounded, so a corrupted ring cannot hang the check), every call's invocation order and fold result are compared, unregister callbacks must run exactly once at the connection's death. The fault space is small (allocation in connect/sig construction, throwing callback) and is reported as such. Sampling, not proof.",
+        "level_text": "Seeded search over histories (up to 50 operations) of up to 3 intrusive lists with 8 heap-allocated elements and up to 3 signals (value/void, with and without unregister base) with 8 connections: creation, destruction in every order (lists and signals before their members), move construction and move assignment of elements, lists and signals from empty and non-empty sources, unlink, calls, throwing callbacks, callbacks that act from inside a call (destroy another connection of the signal being called or of another one, connect to the same or another signal, call another signal), allocation failure in connect, unregister callbacks that inspect empty() and destroy the signal (documented use). After every step forward/backward/const iteration and empty() are compared with the model (bounded, so a corrupted ring cannot hang the check), every call's invocation order and fold result are compared, unregister callbacks must run exactly once at the connection's death. The fault space is small (allocation in connect/sig construction, throwing callback) and is reported as such. Sampling, not proof.",
         "level_note": "Stubs: global operator new/delete (tagging + injected bad_alloc), callbacks (log + injected throw). Trusted: the membership model, ASan/UBSan, the harness. Excluded by precondition: callbacks that connect/disconnect/destroy during a call (no re-entrancy promised), throwing unregister callbacks (documented std::terminate), use of a moved-from signal other than destroying or assigning to it. List move-assignment orphans the target's previous members (not demanded to stay).",
         "rule": "One run = one generated history (1-50 operations) over intrusive lists/elements and/or signals/connections, "
                 "about a third of the runs with injected allocation failures and throwing callbacks. Non-trivial = at least 3 effective operations.",
@@ -75,7 +75,7 @@ PROPS = {
             "enum_every": {"quick": 100, "thorough": 25},
         }],
         "technique": "deterministic simulation with fault injection: seeded read/save/restore/parse histories over a simulated stream buffer (chunked refills, injected read errors, failing seeks, truncation) against a text+index model with line/column recomputed from scratch; differential run of every grammar against a real stringbuf; minimised replay",
-        "level_text": "Seeded search over texts (newline-heavy, up to 25/40 characters, char and wchar_t) and histories (up to 40) of get_char / get_position / set_position(saved) / character-level parsers / 9 compound grammars on parse::detail::stream, the stream buffer being simulated (chunk sizes 1,2,3,7,whole; refills that throw; seeks/tells that fail; truncation at an arbitrary byte) or real (stringbuf, filebuf). Every returned character, offset, line and column is compared with a model that recomputes them from scratch; error texts of literal/char_set must carry the location immediately after the offending character; after a read error no call may yield a character and a grammar may only fail or yield what the text before the error yields; after a failed seek only failure or the true next character is accepted. Sampling, not proof.",
+        "level_text": "Seeded search over texts (newline-heavy, up to 25/40 characters, char and wchar_t) and histories (up to 40) of get_char / get_position / set_position(saved) / character-level parsers / 9 compound grammars on parse::detail::stream, the stream buffer being simulated (chunk sizes 1,2,3,7,whole; with and without put-back support; refills that throw; seeks/tells that fail; truncation at an arbitrary byte) or real (stringbuf, filebuf). Every returned character, offset, line and column is compared with a model that recomputes them from scratch; error texts of literal/char_set must carry the location immediately after the offending character; after a read error no call may yield a character and a grammar may only fail or yield what the text before the error yields; after a failed seek only failure or the true next character is accepted. Sampling, not proof.",
         "level_note": "Stubs: the streambuf (sim::StreamBuf) in 70% of the runs; real std::basic_stringbuf / std::basic_filebuf in the rest (no faults there). Trusted: the text+index model, a real stringbuf as the reference for grammar results, ASan/UBSan, the harness.",
         "rule": "One run = one text plus one history of stream operations executed on one parse stream; about a third of the runs inject read errors / seek failures / truncation. Non-trivial = at least 3 effective operations.",
         "real": REAL_COMMON + ["parse::detail::stream, get_char/get_position/set_position, basic_literal/char_set/char/string, all operators, phrase_parse", "std::basic_istream, std::basic_stringbuf, std::basic_filebuf"],
@@ -91,7 +91,7 @@ PROPS = {
             "enum_every": {"quick": 50, "thorough": 20},
         }],
         "technique": "deterministic simulation with fault injection: seeded write-then-read scenarios over simulated files (torn/short writes, truncation at an arbitrary byte, chunked and failing reads) and over a simulated codecvt facet (narrowed output windows, injected errors, torn encodings); oracle 'value read == value written, or failure, never another value'; byte layout on the simulated disk; minimised replay",
-        "level_text": "Covers the stream- and facet-facing subset of C15: io::write -> io::read for ten arithmetic types and both byte orders (including the byte layout on the simulated disk), write_chars -> read_chars, operator<< / operator>> of math::vector, math::dim and an enum over char and wchar_t streams, narrow_locale / widen_locale through a simulated codecvt facet layered on the real C.utf8 facet. Faults: the writer's file accepts only n bytes (torn write), the reader sees only the first n bytes (lost tail), refills throw, the facet offers narrow output windows (legal partial results) or reports an error, encodings are torn inside a character. Oracle: every acknowledged value lying wholly in the file reads back exactly; a torn or missing value yields failure, never a value; no read succeeds after a failed one; conversions return the complete result or report failure (a strict prefix is 'silent truncation'). endianness::swap twice, output_to_string -> extract_from_string and enum to_string -> from_string ride along in fault-free runs only. NOT covered: the exhaustive sweep over all Unicode scalar values and all 8/16-bit integers (pure input enumeration, no seam). Sampling, not proof.",
+        "level_text": "Covers the stream- and facet-facing subset of C15: io::write -> io::read for ten arithmetic types and both byte orders (including the byte layout on the simulated disk), write_chars -> read_chars, operator<< / operator>> of math::vector, math::dim and an enum over char and wchar_t streams, narrow_locale / widen_locale through a simulated codecvt facet layered on the real C.utf8 facet (strings of 0-40 characters, one in sixteen 41-2048). Faults: the writer's file accepts only n bytes (torn write), the reader sees only the first n bytes (lost tail), refills throw, the facet offers narrow output windows (legal partial results) or reports an error, encodings are torn inside a character. Oracle: every acknowledged value lying wholly in the file reads back exactly; a torn or missing value yields failure, never a value; no read succeeds after a failed one; conversions return the complete result or report failure (a strict prefix is 'silent truncation'). endianness::swap twice, output_to_string -> extract_from_string and enum to_string -> from_string ride along in fault-free runs only. NOT covered: the exhaustive sweep over all Unicode scalar values and all 8/16-bit integers (pure input enumeration, no seam). Sampling, not proof.",
         "level_note": "Stubs: the files behind the streams (sim::StreamBuf), the codecvt facet wrapper (sim::Codecvt over the real C.utf8 facet). Trusted: an independent UTF-8 encoder as reference, the harness, ASan/UBSan. long double is excluded (padding bytes do not survive by-value passing).",
         "rule": "One run = 1-6 independent write-then-read scenarios (binary values, raw chars, text formats, codecvt conversions), half of the runs with injected faults. Every scenario counts as non-trivial; distinct = distinct plans.",
         "real": REAL_COMMON + ["io::read/write, endianness::convert/swap/reverse_mem, write_chars/read_chars, enum_::input/output/to_string/from_string, math vector/dim input/output, impl::codecvt via narrow_locale/widen_locale, output_to_string/extract_from_string", "the real C.utf8 codecvt facet underneath sim::Codecvt"],
@@ -126,10 +126,10 @@ PROPS = {
             "runs": {"quick": 150000, "thorough": 400000000},
             "budget": {"quick": 30, "thorough": 900},
         }],
-        "technique": "deterministic simulation with fault injection: (a) seeded sequential histories against the 'latest prefix set wins' model with injected allocation failures and failing sinks; (b) seeded thread schedules of 2-4 fibers on one OS thread, every mutex and atomic operation a scheduling point (link-time wrapped), ThreadSanitizer driven through its fiber API as in-simulation race monitor, linearizability check of the recorded history, deadlock and step bound; minimised replay including the schedule",
+        "technique": "deterministic simulation with fault injection: (a) seeded sequential histories against the 'latest prefix set wins' model with injected allocation failures and failing sinks; (b) seeded thread schedules of 2-6 fibers on one OS thread, every mutex and atomic operation a scheduling point (link-time wrapped), ThreadSanitizer driven through its fiber API as in-simulation race monitor, linearizability check of the recorded history, deadlock and step bound; minimised replay including the schedule",
         "level_text": "(a) Sequential: histories up to 60 of set/get/object creation (from context, from location, from parent)/level/enabled/log over all 40 locations of depth <= 3 with 3 names per level; every get/level/enabled equals the model, a message appears on the sink of its level iff level >= current level, exactly once, with the documented text (user formatter outermost, then the location prefix, then the level formatter), on no other sink; allocation failures may interrupt an operation (afterwards every location holds the old or the new level), sinks may refuse output. (b) Concurrent: see the C19-conc engine. Sampling, not proof; weak-memory effects are out of reach (sequentially consistent interleavings only).",
         "level_note": "Stubs: OS thread scheduler (fiber scheduler), blocking behaviour of the context mutex (simulated owner table; the real pthread_mutex_lock is still called when free so TSan sees acquire/release), sinks (sim::StreamBuf), global operator new. Trusted: the reference model, the linearizability checker, ThreadSanitizer's happens-before tracking under its fiber API, ASan/UBSan, the harness.",
-        "rule": "One run = one generated history (sequential engine: 1-60 operations, half of the runs with injected faults; concurrent engine: 2-4 fibers x 2-6 operations under one seeded schedule). Non-trivial = at least 3 effective operations. Distinct = distinct plans (operations + schedule).",
+        "rule": "One run = one generated history (sequential engine: 1-60 operations, half of the runs with injected faults; concurrent engine: 2-6 fibers x 1-6 operations under one seeded schedule). Non-trivial = at least 3 effective operations. Distinct = distinct plans (operations + schedule).",
         "real": REAL_COMMON + ["all of fcppt.log (context, object, level streams, formatters), tree::object/pre_order/to_root underneath", "ThreadSanitizer runtime (concurrent engine)"],
         "stub": ["sinks behind std::ostream (sim::StreamBuf, refusing output on order)", "global operator new (injected bad_alloc, tagging)", "thread scheduling and mutex blocking (fiber scheduler; concurrent engine)"],
         "assumptions": ["log objects are not shared between threads and sinks are written by one thread at a time (the documentation promises no more)",
